@@ -52,7 +52,9 @@ DEFAULT_SCALE = len(MAX_DECIMAL_TEXT) - 1
 
 
 #: Regular expression to find any spelling of an ellipsis outside of quoted text.
-_ELLIPSIS_OUTSIDE_QUOTES_REGEX = re.compile("(\"[^\"]*\"|'[^']*')|\\.\\.\\.|" + ELLIPSIS)
+_ELLIPSIS_OUTSIDE_QUOTES_REGEX = re.compile(
+    "(\"(?:\\\\.|[^\"\\\\])*\"|'(?:\\\\.|[^'\\\\])*')|\\.\\.\\.|" + ELLIPSIS
+)
 
 #: Token used to represent an ellipsis when tokenizing a range description.
 _ELLIPSIS_TOKEN_TEXT = ":"
